@@ -50,6 +50,10 @@ __all__ = ['cache','dict_archive','null_archive','dir_archive',\
 
 PREFIX = "K_"  # hash needs to be importable
 TEMP = ".I_"    # indicates 'temporary' file
+def _unique():
+    "a name for a temporary file, which no other process produces"
+    # (two processes that seed 'random' alike draw the same numbers)
+    return hash((random(), os.getpid()), 'md5')
 #DEAD = "D_"    # indicates 'deleted' key
 
 
@@ -540,7 +544,7 @@ class dir_archive(archive):
         "remove a results subdirectory, given its path"
         # first move it out of the way in one step, so that an interrupted
         # (or concurrent) removal never leaves a half-deleted entry behind
-        _tmp = self._getdir(TEMP+hash(random(), 'md5'))
+        _tmp = self._getdir(TEMP+_unique())
         try: os.rename(_dir, _tmp)
         except OSError: _tmp = _dir
         rmtree(_tmp, self=True, ignore_errors=True)
@@ -623,7 +627,7 @@ class dir_archive(archive):
         return memo
     def _store(self, key, value, input=False):
         "store output (and possibly input) in a subdirectory"
-        _key = TEMP+hash(random(), 'md5')
+        _key = TEMP+_unique()
         # create an input file when key is not suitable directory name
         if self._fname(key) != key: input=True #XXX: errors if protocol=0,1?
         # create a temporary directory, and dump the results
@@ -789,7 +793,7 @@ class file_archive(archive):
         """create an archive from the given dictionary"""
         if memo == None: return
         filename = self.__state__['id']
-        _filename = os.path.join(os.path.dirname(os.path.abspath(filename)), TEMP+hash(random(), 'md5'))
+        _filename = os.path.join(os.path.dirname(os.path.abspath(filename)), TEMP+_unique())
         # create a temporary file, and dump the results
         try:
             if self.__state__['serialized']:
@@ -1880,7 +1884,7 @@ if hdf:
           """create an archive from the given dictionary"""
           if memo == None: return
           filename = self.__state__['id']
-          _filename = os.path.join(os.path.dirname(os.path.abspath(filename)), TEMP+hash(random(), 'md5')) if new else filename
+          _filename = os.path.join(os.path.dirname(os.path.abspath(filename)), TEMP+_unique()) if new else filename
           # create a temporary file, and dump the results
           f = None
           try:
@@ -2330,7 +2334,7 @@ if hdf:
           return memo
       def _store(self, key, value, input=False):
           "store output (and possibly input) in a subdirectory"
-          _key = TEMP+hash(random(), 'md5')
+          _key = TEMP+_unique()
           # create an input file when key is not suitable directory name
           if self._fname(key) != key: input=True #XXX: errors if protocol=0,1?
           # create a temporary directory, and dump the results
